@@ -16,7 +16,7 @@
    lemmas are reused.) *)
 From RxVerif Require Import Base.Prelude Ops.Machine Subjects.Subject Subjects.Family Subjects.Replay
   Subjects.ReplaySpec Subjects.ReplaySched Subjects.SubjectFacts Subjects.ReplayFacts Subjects.ReplayTreeFacts
-  Subjects.ReplayLiveFacts Subjects.ReplaySchedFacts Subjects.ReplayDrainFacts.
+  Subjects.ReplayLiveFacts Subjects.ReplaySchedFacts Subjects.ReplayDrainFacts Subjects.ReplayTermFacts.
 
 (* ---- the main statements: for BOTH scheduler modes, ARBITRARY call trees
         (observers that subscribe, unsubscribe, emit, complete, dispose from
@@ -70,6 +70,39 @@ Theorem C22_finished_run_delivers_everything :
     rview o (slog_of c) = xview (bufsize_of bs) w o false rg_init (ops_of (slog_of c)).
 Proof. exact (@sched_complete). Qed.
 Print Assumptions C22_finished_run_delivers_everything.
+
+(* TERMINATION on histories of top-level calls (observers that do nothing in their callbacks:
+   the empty reaction table), in BOTH scheduler modes, every buffer size and window: with enough
+   fuel the run is finished -- this discharges the hypothesis [sc_k c = []] of the completeness
+   theorem above (measure: weighted pending instructions + queued ScheduledObserver items +
+   length of the scheduler queue) *)
+Theorem C22_flat_histories_terminate :
+  forall (A : Type) (sync : bool) (bs w : option Z) (top : list (@rop A)),
+  exists fuel0, forall fuel, (fuel0 <= fuel)%nat ->
+    sc_k (srun sync (rreact_tbl []) fuel (sinit_cfg sync bs w top)) = [].
+Proof. exact (@flat_histories_terminate). Qed.
+Print Assumptions C22_flat_histories_terminate.
+
+(* ... so on such histories every observer that has not unsubscribed ends up with EXACTLY the
+   retained values, the terminal notification if any, and every later notification *)
+Theorem C22_flat_histories_deliver_everything :
+  forall (A : Type) (sync : bool) (bs w : option Z) (top : list (@rop A)),
+  exists fuel0, forall fuel, (fuel0 <= fuel)%nat ->
+    let c := srun sync (rreact_tbl []) fuel (sinit_cfg sync bs w top) in
+    sc_k c = [] /\
+    forall o os, sc_obs c o = Some os ->
+      (ra_stopped os = false \/ has_term (rview o (slog_of c)) = true) ->
+      rview o (slog_of c) = xview (bufsize_of bs) w o false rg_init (ops_of (slog_of c)).
+Proof. exact (@flat_histories_deliver_everything). Qed.
+Print Assumptions C22_flat_histories_deliver_everything.
+
+(* the same termination for every program of top-level calls and EXPLICIT drains *)
+Theorem C22_explicit_programs_terminate :
+  forall (A : Type) (sync : bool) (bs w : option Z) (prog : list (xtop A)),
+  exists fuel0, forall fuel, (fuel0 <= fuel)%nat ->
+    sc_k (srun sync (rreact_tbl []) fuel (xinit_cfg bs w prog)) = [].
+Proof. exact (@explicit_programs_terminate). Qed.
+Print Assumptions C22_explicit_programs_terminate.
 
 (* ---- the retention policy: the code keeps a queue that it trims (by count,
         then by age) at every on_next, subscribe and terminal.  [qinv] ties that
